@@ -71,3 +71,27 @@ func VerifC17TopicHandleError() {
 	zz.Assert(herr != nil, "C17/topics/handle-returns-callback-error")
 	zz.Reach("C17/topics/handle/done")
 }
+
+// VerifC17TopicCloseWhileDeliveringToOthers: several subscribers; the publisher is busy
+// delivering to slow subscribers when another subscriber closes; afterwards the slow ones
+// receive. Nobody may be wedged. Phased (replayable): each phase runs until every thread is
+// blocked or done. Natively the scenario is repeated because the delivery order follows Go's
+// random map iteration order.
+func VerifC17TopicCloseWhileDeliveringToOthers() {
+	for round := 0; round < zz.NativeRepeat(12); round++ {
+		t := New[int]()
+		ctx := context.Background()
+		slow := []*Subscription[int]{t.Subscribe(false), t.Subscribe(false)}
+		closing := t.Subscribe(false)
+		zz.Go("pub", func() { t.Publish(1) })
+		zz.Settle() // the publisher holds the topic lock and is blocked on some subscriber
+		zz.Go("closer", func() { closing.Close() })
+		zz.Settle()
+		for _, s := range slow {
+			s := s
+			zz.Go("slow", func() { _, _ = s.Next(ctx); s.Close() })
+		}
+		zz.WaitThreads("C17/topics/close-while-delivering-to-others-wedges-nobody")
+	}
+	zz.Reach("C17/topics/closeothers/done")
+}
